@@ -448,5 +448,84 @@ theorem translated_outputasync_ctrl_cancel_after_stop (c : Cfg) (W : State → S
   unfold ctrl_cancel_iter1
   simp [M.bind, M.get, M.pure, hd, hw]
 
+/-! ### `_ctrl_wait`, `_ctrl_start` -/
+
+/-- ONE ITERATION of `_ctrl_wait` with nothing running: the head of the queue is taken and its run is
+    started -- the model's `settle` -- and the controller awaits the whole run (`W`) before it looks at the
+    queue again -/
+theorem translated_outputasync_ctrl_wait_iter_is_settle (c : Cfg) (W : State → State) (hm : c.mode = Mode.wait)
+    (s : State) (j : Job) (q : List Job) (data : Option Job) (fuel : Nat)
+    (hr : s.runs = []) (hq : s.queue = j :: q) :
+    ctrl_wait_iter1 (ctrlP c W) [()] fuel data s = (W (settle c s), .next (LoopCtl.next, some j)) := by
+  have hset : settle c s = startRun { s with queue := q } j := by
+    unfold settle; simp only [hm, hr, hq]
+  have hrw : (ctrlP c W).runWrapper (some j) { s with queue := q } = (W (startRun { s with queue := q } j), .next ()) := rfl
+  unfold ctrl_wait_iter1
+  simp only [M.bind, ctrlP_get_cons c W s j q hq, Option.isNone_some, Bool.false_eq_true, if_false, hrw, M.pure, hset]
+
+/-- the sentinel ends `_ctrl_wait`; nothing else happens -/
+theorem translated_outputasync_ctrl_wait_sentinel (c : Cfg) (W : State → State) (s : State) (data : Option Job)
+    (fuel : Nat) (hq : s.queue = []) (hs : s.stopped = true) :
+    ctrl_wait_iter1 (ctrlP c W) [()] fuel data s = (s, .next (LoopCtl.brk, none)) := by
+  unfold ctrl_wait_iter1
+  simp only [M.bind, ctrlP_get_sentinel c W s hq hs, Option.isNone_none, if_true, M.pure]
+
+/-- `_ctrl_start` on a stopped block: every queued item starts its own run at once, in order -- the model's
+    `startAll`, i.e. its `settle` up to `stop_async`'s part --, then the controller awaits all of them (`W`) -/
+theorem translated_outputasync_ctrl_start_is_startAll (c : Cfg) (W : State → State) (hm : c.mode = Mode.start)
+    (s : State) (fuel : Nat) (hs : s.stopped = true) (hf : s.queue.length < fuel) :
+    let s1 := startAll { s with queue := [] } s.queue
+    ctrl_start (ctrlP c W) [()] fuel s = ((if s1.runs.isEmpty then s1 else W s1), .next ()) ∧
+    settle c s = startStopData s1 := by
+  intro s1
+  refine ⟨?_, by unfold settle; simp only [hm]; rfl⟩
+  unfold ctrl_start
+  simp only [M.bind, start_loop c W s s.queue none fuel rfl hs hf, M.get]
+  have ht : (ctrlP c W).tasksNonEmpty s1 = !s1.runs.isEmpty := rfl
+  have hg : ∀ x, (ctrlP c W).gatherTasks x = (W x, .next ()) := fun _ => rfl
+  change (if (ctrlP c W).tasksNonEmpty s1 = true then
+      (ctrlP c W).gatherTasks.bind fun _ => M.pure () else M.pure ()) s1 = _
+  rw [ht]
+  cases s1.runs.isEmpty <;> simp [M.bind, M.pure, hg]
+
+/-! ### `_event_put`, `stop`, `stop_async` -/
+
+/-- `_event_put` IS the model's acceptance of a put (before `stop()`: queued; after it: behind the sentinel) -/
+theorem translated_outputasync_event_put_is_accept (c : Cfg) (W : State → State) (s : State) (x : Item) :
+    event_put (stopP c W) x s = ((if s.stopped then acceptLate s x else accept s x), .next ()) := by
+  simp [event_put, stopP, M.bind, M.modify, M.pure]
+
+/-- `stop()` IS the model's `doStop`: stop_data is queued as an ordinary item BEFORE the sentinel in wait and
+    cancel mode; in start mode `stop()` does not touch stop_data (the model registers it for `stop_async`,
+    see `translated_outputasync_stop_async_is_model`): there the code does what `doStop` does for a block
+    without stop_data -/
+theorem translated_outputasync_stop_is_doStop (c : Cfg) (W : State → State) (s : State)
+    (hns : s.stopped = false) :
+    (stop (stopP c W) s).1 = doStop (if c.mode = Mode.start then { c with stopData := none } else c) s := by
+  unfold stop doStop
+  cases hd : c.stopData with
+  | none =>
+    by_cases hm : c.mode = Mode.start <;>
+      simp [stopP, hd, hm, hns, M.bind, M.modify, M.pure, markStopped]
+  | some d =>
+    by_cases hm : c.mode = Mode.start
+    · simp [stopP, hd, hm, hns, M.bind, M.modify, M.pure, markStopped]
+    · simp [stopP, hd, hm, hns, M.bind, M.modify, M.pure, markStopped, accept, emit]
+
+/-- `stop_async` IS the model's end of the stop: it awaits the control task (`W`; a cancellation of this
+    await is swallowed) and then, in start mode only, runs stop_data -- the model's `startStopData` -/
+theorem translated_outputasync_stop_async_is_model (c : Cfg) (W : State → State) (s : State)
+    (hst : (W s).stopped = true) (hr : (W s).runs = [])
+    (hsd : c.stopData = none → (W s).sdPending = none) :
+    (stop_async (stopP c W) s).1 = if c.mode = Mode.start then startStopData (W s) else W s := by
+  unfold stop_async startStopData
+  by_cases hm : c.mode = Mode.start
+  · cases hd : c.stopData with
+    | none => simp [stopP, hd, hm, M.bind, M.modify, M.pure, M.tryExcept, hsd hd]
+    | some d =>
+      cases hp : (W s).sdPending <;>
+        simp [stopP, hd, hm, M.bind, M.modify, M.pure, M.tryExcept, hp, hst, hr]
+  · cases hd : c.stopData <;> simp [stopP, hd, hm, M.bind, M.modify, M.pure, M.tryExcept]
+
 end Edzed.TrTie
 
